@@ -220,9 +220,53 @@ for n in (1, 2, 3, 4):
         R.check("compress() round trip exact for strings", "compress strings", {"array": list(combo)}, lambda combo=combo: string_case(combo))
 
 
+def file_cycle_case(kind, tol):
+    """whole files read back equal to what was written: the encodings (with their float parameters) and the data,
+    through a real write() / read() of a BinaryCIFFile"""
+    import io as _io
+    if kind == "compress multiples of 100":
+        vals = np.array([425300.0, 100.0, -7700.0, 1234500.0] * 10, dtype=np.float64)
+        data = compress(BinaryCIFData(vals), float_tolerance=tol)
+    elif kind == "FixedPoint factor 0.1":
+        vals = np.array([120.0, 30.0, -50.0, 99990.0] * 5, dtype=np.float64)
+        data = BinaryCIFData(vals, [E.FixedPointEncoding(factor=0.1), E.ByteArrayEncoding()])
+    elif kind == "FixedPoint factor 1/3":
+        vals = np.array([3.0, 6.0, -9.0, 3000.0] * 5, dtype=np.float64)
+        data = BinaryCIFData(vals, [E.FixedPointEncoding(factor=1 / 3), E.ByteArrayEncoding()])
+    else:
+        vals = np.array([0.1, 0.4, 0.7, 0.25] * 5, dtype=np.float64)
+        data = BinaryCIFData(vals, [E.IntervalQuantizationEncoding(0.1, 0.7, 601), E.ByteArrayEncoding()])
+    in_memory = np.asarray(BinaryCIFData.deserialize(data.serialize()).array, dtype=np.float64)
+    fil = BinaryCIFFile({"blk": BinaryCIFBlock({"cat": BinaryCIFCategory({"x": BinaryCIFColumn(data)})})})
+    st = _io.BytesIO()
+    fil.write(st)
+    st.seek(0)
+    col = BinaryCIFFile.read(st)["blk"]["cat"]["x"]
+    back = np.asarray(col.as_array(), dtype=np.float64)
+    want = [e.serialize() for e in data.encoding]
+    got = [e.serialize() for e in col.data.encoding]
+    if got != want:
+        diff = [(w, g) for w, g in zip(want, got) if w != g][:1]
+        return f"encoding read back from the file differs from the one written: {diff}"
+    if not np.array_equal(back, in_memory):
+        k = int(np.argmax(np.abs(back - in_memory)))
+        return f"the file decodes to {back[k]!r} where the written column decodes to {in_memory[k]!r}"
+    if kind.startswith("compress"):
+        err = np.abs(back - vals)
+        if np.any(err > tol * np.abs(vals) * (1 + 1e-9)):
+            k = int(np.argmax(err / np.abs(vals)))
+            return f"{vals[k]!r} read back from the file as {back[k]!r} (relative error {err[k] / abs(vals[k]):.3g} > {tol})"
+    return None
+
+
 # ---- (b) the encodings applied directly -----------------------------------------------------
 
 from biotite.structure.io.pdbx import encoding as E
+
+for kind in ("compress multiples of 100", "FixedPoint factor 0.1", "FixedPoint factor 1/3", "IntervalQuantization 0.1..0.7"):
+    for tol in (1e-6, 1e-9):
+        R.check("whole files read back equal to what was written", f"file write/read: {kind}", {"kind": kind, "tolerance": tol},
+                lambda kind=kind, tol=tol: file_cycle_case(kind, tol))
 
 
 def int_arrays(dt):
